@@ -321,7 +321,7 @@ func keyFields(t types.Type, nonKey map[string]string, skipTypes map[string]stri
 }
 
 func keyLeaves(t types.Type, path string, nonKey, skipTypes map[string]string, seen map[*types.Named]bool, depth int) []string {
-	if depth > 6 {
+	if depth > 16 {
 		return nil
 	}
 	last := path
